@@ -546,5 +546,59 @@ pub fn generate_tools(sink: &mut Sink, seed: u64, thorough: bool) {
         let _ = std::fs::remove_file(&path);
         sink.stat("unpack_ground_truth");
     }
+    // ---- e57-unpack on files with SEVERAL point clouds, empty ones among them: cloud i of the library is pc_<i>.csv
+    for case in 0..(if thorough { 12 } else { 4 }) {
+        let sizes: Vec<usize> = match case % 4 {
+            0 => vec![2, 0, 3],
+            1 => vec![0, 4],
+            2 => vec![3, 1, 0],
+            _ => vec![0, 0, 2, 0, 1],
+        };
+        let mut stmts: Vec<Stmt> = vec![];
+        for (k, n) in sizes.iter().enumerate() {
+            let proto = vec![
+                Rec { name: RName::Std("cartesianX".into()), dt: DT::F32(None, None) },
+                Rec { name: RName::Std("cartesianY".into()), dt: DT::F64(None, None) },
+                Rec { name: RName::Std("cartesianZ".into()), dt: DT::S(-100, 100, 0.5f64.to_bits(), 0f64.to_bits()) },
+                Rec { name: RName::Std("intensity".into()), dt: DT::I(0, 9 + k as i64) },
+            ];
+            let body: Vec<PcStmt> = (0..*n).map(|j| PcStmt::P(vec![Val::F(((k * 10 + j) as f32 + 0.5).to_bits()), Val::D(((j as f64) - 0.25).to_bits()), Val::S(j as i64 - 3), Val::I((j % 9) as i64)])).collect();
+            stmts.push(Stmt::Pc { guid: format!("cloud-{k}"), proto, body, end: true });
+        }
+        stmts.push(Stmt::Fin);
+        let prog = Program { guid: "unpack-clouds".into(), stmts };
+        let run = execute(&prog, &SimDev::new(vec![]));
+        let case_id = format!("unpack clouds={sizes:?} {}", prog.case_line(&library_version()));
+        sink.oracle_evals += 1;
+        if run.panicked || run.results.last().map(|r| r != "ok").unwrap_or(true) {
+            continue;
+        }
+        let path = format!("{dir}/clouds{case}.e57");
+        std::fs::write(&path, &run.file).ok();
+        let out = Command::new(&unpack).arg(&path).output();
+        let folder = format!("{path}_unpacked");
+        if !out.map(|o| o.status.success()).unwrap_or(false) {
+            sink.fail("C20", "tools/unpack-failed", &case_id, "e57-unpack failed on a file the writer produced");
+            continue;
+        }
+        if let Ok(mut r) = e57::E57Reader::new(std::io::Cursor::new(run.file.clone())) {
+            let pcs = r.pointclouds();
+            for (i, pc) in pcs.iter().enumerate() {
+                let csv = match std::fs::read_to_string(format!("{folder}/pc_{i}.csv")) {
+                    Ok(c) => c,
+                    Err(_) => {
+                        sink.fail("C20", "tools/unpack-cloud-missing", &case_id, &format!("e57-unpack wrote no pc_{i}.csv for point cloud {i} ({} records) of the library", pc.records));
+                        continue;
+                    }
+                };
+                let rows: Vec<&str> = csv.lines().skip(1).collect();
+                let want: Vec<String> = r.pointcloud_raw(pc).map(|it| it.flatten().map(|p| p.iter().map(|v| match v { e57::RecordValue::Single(s) => s.to_string(), e57::RecordValue::Double(d) => d.to_string(), e57::RecordValue::ScaledInteger(i) | e57::RecordValue::Integer(i) => i.to_string() }).collect::<Vec<_>>().join(";")).collect()).unwrap_or_default();
+                if rows.len() != want.len() || rows.iter().zip(want.iter()).any(|(a, b)| *a != b.as_str()) {
+                    sink.fail("C20", "tools/unpack-points", &case_id, &format!("pc_{i}.csv holds {} rows, point cloud {i} of the library has {} points; rows equal = {}", rows.len(), want.len(), rows.iter().zip(want.iter()).all(|(a, b)| *a == b.as_str())));
+                }
+            }
+        }
+        sink.stat("unpack_several_clouds");
+    }
     let _ = std::fs::remove_dir_all(&dir);
 }
